@@ -9,7 +9,8 @@
 (*                     cfg \in {"none","on","off","onoff","offon"} (#[cfg]    *)
 (*                         gates -- one, or two of which one is false -- and  *)
 (*                         whether the variant is compiled in this build),    *)
-(*                     form \in {"lit","missing","expr"} ]) ]               *)
+(*                     form \in {"lit","hex","bin","oct","under",           *)
+(*                               "missing","expr"} ]) ]                     *)
 (***************************************************************************)
 EXTENDS Naturals, Sequences, FiniteSets
 
@@ -23,11 +24,13 @@ DiscrFits(e, v) == ESet(v.d) \subseteq 0..(e.n - 1)
 Gated(v)  == v.cfg # "none"
 Active(e) == {k \in 1..Len(e.variants) : e.variants[k].cfg \in {"none", "on"}}
 
+(* an integer literal in any spelling (decimal, 0x.., 0b.., 0o.., with underscores) is a literal discriminant *)
+LitForms == {"lit", "hex", "bin", "oct", "under"}
 (* C10 *)
 EnumValid(e) ==
   /\ e.n \in 1..64
   /\ Len(e.variants) >= 1
-  /\ \A k \in 1..Len(e.variants) : e.variants[k].form = "lit" /\ DiscrFits(e, e.variants[k])
+  /\ \A k \in 1..Len(e.variants) : e.variants[k].form \in LitForms /\ DiscrFits(e, e.variants[k])
   /\ ((\E k \in 1..Len(e.variants) : Gated(e.variants[k])) => e.exh = "conditional")
   /\ (e.exh = "true" => CountEq(Len(e.variants), e.n))
   /\ (e.exh \in {"false", "omitted"} => CountLt(Len(e.variants), e.n))
